@@ -77,6 +77,7 @@ def run(tier):
     hs = [x for x in c20._sites() if x.mod.name.endswith("services.hamiltonian")]
     c20._b_key_params(Relabel(chk, {"C20.b": "C18.a-cache"}), hs)
     _a_registry_writers(chk)
+    _a_pipeline_unpack(chk)
     _ab_registry(chk)
     _c_linear(chk)
     _d_pointwise(chk)
@@ -294,6 +295,45 @@ def _a_registry_writers(chk):
                       f"{owner} writes the conversion table directly: once the shared conversion service has been initialised (first use of any Hamiltonian) such an entry is "
                       "never copied into it and to_state() raises 'No conversion path'", sample=f"{owner}: the only writer of the table")
     chk.floor("writers of the conversion table", n, 1)
+
+
+def _a_pipeline_unpack(chk):
+    """The two edges that return (Hamiltonian, generating functions) are handled alike on both ways through the pipeline -
+    the single-step branch of _compute_hamiltonian (taken when the source form is already cached) and the multi-step
+    _execute_conversion_path: the Hamiltonian (not the tuple) is handed back / cached and the generating functions are stored."""
+    pmod, pcls = ri.find_def(PL, "HamiltonianPipeline")
+    HAM, GF, POINT = sp.Symbol("HAM_NEW"), sp.Symbol("GF_NEW"), sp.Symbol("POINT")
+    for form in ("complex_partial_normal", "complex_full_normal", "real_modal"):
+        lie = form != "real_modal"
+        for way in ("single step", "path"):
+            stored = []
+            asked = []
+
+            def to_state(target, **kw):
+                asked.append((target, kw.get("point")))
+                return (HAM, GF) if lie else HAM
+
+            src = SymObj(None, {"to_state": to_state}, "source_ham")
+            cache = {"complex_modal": src}
+            pipe = SymObj(ClassRef(pmod, pcls), {"_point": POINT, "_hamiltonian_cache": cache, "get_hamiltonian": lambda f: src,
+                                                 "_find_conversion_source": lambda f: "complex_modal",
+                                                 "_store_generating_functions": lambda f, g: stored.append((f, g)),
+                                                 "_follow_conversion_path": lambda a, b: sp.Symbol("FOLLOWED")}, "pipe")
+            ip = Interp()
+            try:
+                if way == "single step":
+                    out = ip.apply(ip.getattr(pipe, "_compute_hamiltonian"), [form], {})
+                else:
+                    out = ip.apply(ip.getattr(pipe, "_execute_conversion_path"), [["complex_modal", form]], {})
+            except OutsideFragment as exc:
+                raise AnalysisError(f"HamiltonianPipeline {way} outside fragment: {exc}")
+            ok = out == HAM and asked and asked[0] == (form, POINT) and stored == ([(form, GF)] if lie else [])
+            if way == "path":
+                ok = ok and cache.get(form) == HAM
+            chk.check(ok, "C18.a", f"{PL}::HamiltonianPipeline[{way} -> {form}]",
+                      f"{way}: converting the cached complex_modal form to {form} yields {out} (stored generating functions: {stored}); expected the Hamiltonian itself"
+                      + (" and its generating functions stored" if lie else ""), sample=f"{way} -> {form}: returns the Hamiltonian" + ("; stores GF" if lie else ""))
+    chk.count("functions partially evaluated", 6)
 
 
 def generating_function_slots(chk):
